@@ -272,9 +272,7 @@ Proof.
     split; [exact Hpu1|]. exists (shp_of r), pi. split; [exact Hzc|]. split; [exact Epar|]. split; [exact Hc2|].
     intros _. split; [exact He2|]. apply st_at_fail_at_self. exact Hpi_lt. }
   destruct (negb match run_status (session_ x1) c with Some RFailed => true | _ => false end) eqn:Encf.
-  - destruct (match get_run (session_ x1) pi with
-              | Some r0 => match get_flow a (r_flow r0) with Some _ => false | None => true end
-              | None => true end).
+  - destruct (run_flow_unusable a (session_ x1) pi).
     + intros H. eapply Hfail; [exact H|reflexivity|reflexivity|exact Hexit].
     + pose proof (find_resume_exit_shape a x1 pi false []) as Hfre.
       destruct (find_resume_exit a x1 pi false []) as [y e op|y|y|]; try discriminate.
